@@ -18,6 +18,8 @@ use std::panic::{AssertUnwindSafe, catch_unwind};
 use std::sync::{Arc, Mutex, Once};
 
 pub struct Rec {
+    /// light mode: count only (no snapshots, no event log, no output copy) — used for timing
+    pub light: bool,
     pub evs: Vec<Ev>,
     pub out: Vec<u8>,
     pub invocations: usize,
@@ -183,7 +185,9 @@ fn begin(rec: &Shared, reg: usize, unit: Unit, el_loc: Option<Loc>) -> (usize, I
     let mut r = lock(rec);
     r.invocations += 1;
     let inv = r.invocations;
-    r.evs.push(Ev::Handler { reg, inv, unit, el_loc });
+    if !r.light {
+        r.evs.push(Ev::Handler { reg, inv, unit, el_loc });
+    }
     let inj = match r.fail_at {
         Some(f) if f.index == inv => {
             r.evs.push(Ev::Injected { reg, inv });
@@ -192,6 +196,10 @@ fn begin(rec: &Shared, reg: usize, unit: Unit, el_loc: Option<Loc>) -> (usize, I
         _ => Inject::No,
     };
     (inv, inj)
+}
+
+fn is_light(rec: &Shared) -> bool {
+    lock(rec).light
 }
 
 fn injected() -> HandlerResult {
@@ -279,7 +287,7 @@ fn run_el_ops<H: HandlerTypes>(
                 let rec2 = rec.clone();
                 let et_ops = et_ops.clone();
                 let r = el.on_end_tag(H::new_end_tag_handler(move |et: &mut EndTag<'_>| {
-                    let (_, inj) = begin(&rec2, reg, snap_end_tag(et), Some(el_loc));
+                    let (_, inj) = begin(&rec2, reg, if is_light(&rec2) { Unit::DocEnd } else { snap_end_tag(et) }, Some(el_loc));
                     if inj == Inject::Before {
                         return injected();
                     }
@@ -356,6 +364,9 @@ impl OutputSink for RecSink {
     fn handle_chunk(&mut self, chunk: &[u8]) {
         let mut r = lock(&self.rec);
         r.sink_calls += 1;
+        if r.light {
+            return;
+        }
         r.out.extend_from_slice(chunk);
         r.evs.push(Ev::Chunk(chunk.to_vec()));
     }
@@ -403,7 +414,7 @@ macro_rules! build_settings {
                     let rec2 = rec.clone();
                     let ops = ops.clone();
                     let handler = move |el: &mut Element<'_, '_, $H>| -> HandlerResult {
-                        let (_, inj) = begin(&rec2, reg, snap_element(el), None);
+                        let (_, inj) = begin(&rec2, reg, if is_light(&rec2) { Unit::DocEnd } else { snap_element(el) }, None);
                         if inj == Inject::Before {
                             return injected();
                         }
@@ -429,7 +440,7 @@ macro_rules! build_settings {
                     let ops = ops.clone();
                     let when = *when;
                     let handler = move |t: &mut TextChunk<'_>| -> HandlerResult {
-                        let (_, inj) = begin(&rec2, reg, snap_text(t), None);
+                        let (_, inj) = begin(&rec2, reg, if is_light(&rec2) { Unit::DocEnd } else { snap_text(t) }, None);
                         if inj == Inject::Before {
                             return injected();
                         }
@@ -474,7 +485,7 @@ macro_rules! build_settings {
                     let rec2 = rec.clone();
                     let ops = ops.clone();
                     let handler = move |c: &mut Comment<'_>| -> HandlerResult {
-                        let (_, inj) = begin(&rec2, reg, snap_comment(c), None);
+                        let (_, inj) = begin(&rec2, reg, if is_light(&rec2) { Unit::DocEnd } else { snap_comment(c) }, None);
                         if inj == Inject::Before {
                             return injected();
                         }
@@ -517,7 +528,7 @@ macro_rules! build_settings {
                     let rec2 = rec.clone();
                     let remove = *remove;
                     let handler = move |d: &mut Doctype<'_>| -> HandlerResult {
-                        let (_, inj) = begin(&rec2, reg, snap_doctype(d), None);
+                        let (_, inj) = begin(&rec2, reg, if is_light(&rec2) { Unit::DocEnd } else { snap_doctype(d) }, None);
                         if inj == Inject::Before {
                             return injected();
                         }
@@ -601,11 +612,12 @@ macro_rules! build_settings {
 
 pub struct RunOpts {
     pub record_charges: bool,
+    pub light: bool,
 }
 
 impl Default for RunOpts {
     fn default() -> Self {
-        RunOpts { record_charges: false }
+        RunOpts { record_charges: false, light: false }
     }
 }
 
@@ -717,6 +729,7 @@ pub fn run(sc: &Scenario) -> Result<History, String> {
 pub fn run_opts(sc: &Scenario, opts: &RunOpts) -> Result<History, String> {
     install_quiet_panic_hook();
     let rec: Shared = Arc::new(Mutex::new(Rec {
+        light: opts.light,
         evs: Vec::with_capacity(64),
         out: Vec::with_capacity(sc.doc.len() + 64),
         invocations: 0,
@@ -737,6 +750,9 @@ pub fn run_opts(sc: &Scenario, opts: &RunOpts) -> Result<History, String> {
                     let sink = move |c: &[u8]| {
                         let mut r = lock(&r2);
                         r.sink_calls += 1;
+                        if r.light {
+                            return;
+                        }
                         r.out.extend_from_slice(c);
                         r.evs.push(Ev::Chunk(c.to_vec()));
                     };
@@ -754,6 +770,9 @@ pub fn run_opts(sc: &Scenario, opts: &RunOpts) -> Result<History, String> {
                     let sink = move |c: &[u8]| {
                         let mut r = lock(&r2);
                         r.sink_calls += 1;
+                        if r.light {
+                            return;
+                        }
                         r.out.extend_from_slice(c);
                         r.evs.push(Ev::Chunk(c.to_vec()));
                     };
@@ -811,6 +830,7 @@ pub fn run_rewrite_str(sc: &Scenario) -> Result<Result<Result<String, ErrKind>, 
         return Err("not utf-8".into());
     };
     let rec: Shared = Arc::new(Mutex::new(Rec {
+        light: false,
         evs: vec![],
         out: vec![],
         invocations: 0,
